@@ -865,6 +865,13 @@ func checkSliver(c sliverCase) (o ev.Outcome) {
 		if g != want {
 			o.Err = fmt.Sprintf("probe %d: ContainsPoint=%v, truth %v (ccw=%v, Area=%v)", i, g, want, ccw, got)
 			o.Finding = "sliver-contains"
+			if want && !l.RectBound().ContainsPoint(p) {
+				// the crossing parity says inside; ContainsPoint says no only because
+				// of its bounding-rectangle shortcut: the loop's RectBound is not
+				// conservative (seen for an edge running exactly through a pole)
+				o.Finding = "bound-excludes-contained-point"
+				o.Err += fmt.Sprintf("; RectBound %v excludes the probe %v", l.RectBound(), s2.LatLngFromPoint(p))
+			}
 			return o
 		}
 	}
